@@ -91,7 +91,7 @@ def answer (line : String) : String :=
       let m := modelBin R v op a b
       let s := specBin R op (absNum a) (absNum b)
       let fl := flagsStr [
-        (trigF06c_bin op a b, "F06c"), (trigF06t v op a b, "F06t"), (trigF06x v op a b, "F06x"),
+        (trigF06c_bin op a b, "F06c"), (trigF06t R v op a b, "F06t"), (trigF06x R v op a b, "F06x"),
         (trigIdef_bin op a b, "idef"), (trigBig R op a b, "big")]
       s!"model={showRes (m.map absNum)} spec={showRes s} flags={fl}"
     | some _, none => "bad-b"
